@@ -340,3 +340,28 @@ PROPS["C19"] = dict(
                "flux-term magnitudes).",
     assumptions=["input functions are smooth a few step sizes beyond the sampled point"],
 )
+
+PROPS["C01"] = dict(
+    harness="c01_solve", flavour="rel",
+    quick=dict(workers=8, cases=320, min_nontrivial=100),
+    thorough=dict(workers=16, cases=16000, min_nontrivial=3000, budget_s=3300),
+    rule="Full option records through the public API: all 63 smooth non-Culham triples (geometry x 7 profiles x "
+         "CartesianR2/R6/PolarR6) plus the Refined problem in 10% (second half only), geometry parameters (defaults or random "
+         "in range), R0/Rmax 1e-8..0.1, both boundary modes, take / give with all four cache combinations, extrapolation "
+         "0/1/3 and 2 (second half only), cycles V/W/F, FMG on/off with FMG cycle and 0..3 iterations, 1..3 pre/post "
+         "smoothing steps, level caps -1/2/3/4 (coarsest level <= 33 radial nodes), three norm types, rel tol 1e-6/1e-8/"
+         "1e-10, abs tol off/1e-8/1e-12, 1 or 4 threads, grids nr_exp 3..6 with anisotropic factor 0..3 and divideBy2 0..2. "
+         "Oracle A (every stop before the limit): the (extrapolated) residual recomputed from solution() with fresh input "
+         "functions, own rhs, reference operator, own coarse grid/injection/(4r_h-r_2h)/3 combination meets the tolerance "
+         "(x(1+1e-6)); initial norm from the zero vector or from a second object's FMG start. Oracle B (rate domain: "
+         "finest >=17x32, extrapolation 0/1/3, not Refined): stops within 150 iterations with mean reduction factor in "
+         "(0,1). Non-trivial: >=3 iterations and >=2 levels. Distinct: hash of the option record.",
+    technique="property-based testing (rapidcheck) over the solver's option space; oracle = independent recomputation of the stopping quantity plus convergence invariants",
+    level_text="Generated configurations are solved through the public API; whenever solve() reports convergence the "
+               "stopping quantity is recomputed from scratch by independent code (different operator implementation, own "
+               "right-hand side and extrapolation), and inside the documented convergent domain the iteration must stop "
+               "within the budget with a reduction factor below one. Exploration of a ~20-dimensional option space.",
+    level_note="Trusted: harness/common/indep.h and refop.h (validated against the implementations by C03), the input "
+               "functions (validated by C19).",
+    assumptions=["coarsest level capped at 33 radial nodes for cost", "refinement radius (alpha_jump) inside the domain"],
+)
